@@ -612,11 +612,21 @@ class NPShim:
             out[idx] = aa[idx] if bool(cc[idx]) else bb[idx]
         return out if out.ndim else out[()]
 
+    def _argext(self, which, x, axis):
+        x = to_obj(unwrap(x))
+        if axis is None or not is_arr(x) or x.ndim == 1:
+            return self.it.ask(Cond(which, x), kind=int)
+        moved = np.moveaxis(x, axis, -1)
+        out = np.empty(moved.shape[:-1], dtype=object)
+        for idx in np.ndindex(out.shape):            # one decision per row: each is a selection among that row's entries
+            out[idx] = self.it.ask(Cond(which, moved[idx]), kind=int)
+        return out.astype(int)
+
     def argmax(self, x, axis=None):
-        return self.it.ask(Cond("argmax", to_obj(unwrap(x))), kind=int)
+        return self._argext("argmax", x, axis)
 
     def argmin(self, x, axis=None):
-        return self.it.ask(Cond("argmin", to_obj(unwrap(x))), kind=int)
+        return self._argext("argmin", x, axis)
 
     def _bound(self, a, b, kind):
         """np.maximum(x, c) / np.minimum(x, c) with a constant bound is one half of a clip: transparent under the same assumption as np.clip"""
